@@ -30,7 +30,10 @@ def run(tier):
     if os.path.exists(os.path.join(vlib.VERIF, "checks", "c13_fileinfo.py")):
         import c13_fileinfo
         c13_fileinfo.run(ck, tier)
+    import c13_list
+    c13_list.run(ck, tier)
     ck.assumptions += [
+        "xz --robot --list -vv: every layout of up to 2 (thorough 3) Streams over 5 Stream kinds (0-3 Blocks, 4 Check types) x Stream Padding {0,4,12}; stream/block/file lines compared with an independent reader of the container and Check values computed from the plain data (ratio, offsets, sizes, Check, header size, size flags)",
         "index operation alphabets and depth as listed in sub_spaces; values outside the boundary sets are not explored",
         "states = distinct model states per shard summed over shards (an upper bound on distinct states); every history is executed on a fresh object",
         "BACKWARD_SIZE_MAX (16 GiB Index) limit is unreachable at these depths",
